@@ -353,9 +353,21 @@ func tsp(sec int64, nsec, off int) *model.TimeSpec {
 
 func genLookupUniverse(t *rapid.T) lookupUniverse {
 	var u lookupUniverse
-	subjPool := []model.NodeSpec{{Type: "/u", ID: "a"}, {Type: "/u", ID: "b"}, {Type: "/t", ID: "a"}, {Type: "/u/x", ID: "c"}}
-	ns := rapid.IntRange(2, 3).Draw(t, "nsubj")
-	u.Subjects = subjPool[:ns]
+	// subjects: same id under unrelated types, under a type and its sub-type (covariant
+	// types: /u/x is a /u), and different ids under one type; 2-4 of them in a drawn order
+	subjPool := []model.NodeSpec{{Type: "/u", ID: "a"}, {Type: "/u", ID: "b"}, {Type: "/t", ID: "a"}, {Type: "/u/x", ID: "a"},
+		{Type: "/u/x", ID: "c"}, {Type: "/u/x/y", ID: "a"}, {Type: "/u/x", ID: "b"}}
+	ns := 2 + gen.Uniform(t, 3, "nsubj")
+	if gen.Maybe(t, 50, "classic-subjects") {
+		u.Subjects = append(u.Subjects, subjPool[:ns]...)
+	} else {
+		rest := append([]model.NodeSpec{}, subjPool...)
+		for len(u.Subjects) < ns {
+			i := gen.Uniform(t, len(rest), "subj")
+			u.Subjects = append(u.Subjects, rest[i])
+			rest = append(rest[:i], rest[i+1:]...)
+		}
+	}
 	// anchors: three instants, the first also in another zone, the second ±1ns
 	base := rapid.SampledFrom([]int64{1136214245, 1500000000, -9000000000}).Draw(t, "base")
 	anchors := []*model.TimeSpec{
